@@ -19,8 +19,10 @@ RULE = ("Cases = (function from the elementary and special-function catalogue (~
         "raise one of ValueError, ZeroDivisionError, NoConvergence, NotImplementedError, ComplexResult, OverflowError, "
         "TypeError, before the harness has counted %d function entries plus backward jumps (sys.monitoring PY_START and "
         "JUMP events; a pure function of code and input, unlike wall-clock time). The largest count of any terminating "
-        "call of the run is recorded in the evidence (budget is > 100x that). A call stopped by the 300 s wall-clock "
-        "safety net before the event budget is inconclusive. Any other exception type (MemoryError, RecursionError, "
+        "call of the run is recorded in the evidence. Second budget: CPU time of the process inside the call (ITIMER_"
+        "VIRTUAL; 90 s quick / 600 s thorough, far above the few seconds of the costliest legitimate call), which "
+        "catches loops whose iterations grow ever more expensive. A call stopped by the 600 s wall-clock safety net "
+        "before either budget is inconclusive. Any other exception type (MemoryError, RecursionError, "
         "UnboundLocalError, ...) violates 'raises a documented exception'. Non-trivial = work count above 20000 events "
         "or an exception was raised.") % BUDGET
 ASSUMPTIONS = ["'bounded amount of computation' is read as: at most 5e7 interpreter events (function entries + loop iterations)"]
@@ -29,6 +31,37 @@ TECHNIQUE = "property-based testing (Hypothesis) with a deterministic work budge
 
 class BudgetExceeded(BaseException):
     pass
+
+
+class CpuBudgetExceeded(BaseException):
+    pass
+
+
+# Second budget: CPU time consumed by this process inside the call (ITIMER_VIRTUAL, i.e. not wall-clock time and not
+# affected by other processes).  An event budget alone misses loops whose iterations get ever more expensive (integers
+# that grow without bound): such a loop executes few events per second.  The largest legitimate call of the generated
+# domain uses a few seconds at the precisions of the tier; the budget is far above that.
+CPU_BUDGET = {"quick": 90, "thorough": 600}
+
+
+class cpu_limit:
+    def __init__(self, seconds):
+        self.seconds = seconds
+
+    def _handler(self, signum, frame):
+        raise CpuBudgetExceeded()
+
+    def __enter__(self):
+        import signal
+        self._old = signal.signal(signal.SIGVTALRM, self._handler)
+        signal.setitimer(signal.ITIMER_VIRTUAL, self.seconds)
+        return self
+
+    def __exit__(self, et, ev, tb):
+        import signal
+        signal.setitimer(signal.ITIMER_VIRTUAL, 0)
+        signal.signal(signal.SIGVTALRM, self._old)
+        return False
 
 
 _state = {"cnt": 0, "on": False, "init": False}
@@ -73,8 +106,8 @@ def counted(f, *a, **k):
 
 def shards(tier):
     if tier == "quick":
-        return [("f", 350)] * 6 + [("m", 90)] * 7 + [("s", 15)] * 3
-    return [("f", 8000)] * 6 + [("m", 2000)] * 7 + [("s", 300)] * 3
+        return [("f", 350)] * 4 + [("m", 90)] * 4 + [("s", 15)] * 2 + [("switch", 2500)] * 6
+    return [("f", 8000)] * 5 + [("m", 2000)] * 5 + [("s", 300)] * 2 + [("switch", 8000)] * 4
 
 
 def _edge_args(d, name, p):
@@ -117,7 +150,31 @@ def _edge_args(d, name, p):
     return args, k
 
 
+SWITCH_FUNCS = ["erf", "erfc", "erfc", "ncdf", "ei", "e1", "li", "si", "ci", "shi", "chi", "erfi", "fresnels", "fresnelc", "airyai", "airybi",
+                "expint", "gammainc", "besselj", "bessely", "besseli", "besselk", "struveh", "struvel"]
+
+
+def gen_switch(d, tier):
+    """arguments scanned finely across the series/asymptotic-expansion switch-over: x^2 ~ (p+c) ln 2 or x ~ (p+c) ln 2"""
+    name = d.choice(SWITCH_FUNCS)
+    p = d.int(10, 700 if tier == "quick" else 3300)
+    c0 = d.int(-12, 60)
+    base = (p + c0) * 0.6931471805599453
+    if name in ("erf", "erfc", "ncdf", "erfi", "fresnels", "fresnelc", "airyai", "airybi") and d.int(0, 3):
+        t = max(base, 0.01) ** 0.5
+    else:
+        t = max(base, 0.01) * d.choice([1.0, 1.0, 0.5, 2.0])
+    v = int(t * 64) + d.int(-32, 32)
+    x = exact.mk(d.int(0, 1) if name in ("erf", "erfc", "ncdf", "erfi", "airyai", "airybi", "si", "shi") and d.int(0, 3) == 0 else 0, max(1, v), -6)
+    spec = cat.FUNCS[name][0]
+    args = cat.gen_args(d, name, p)
+    args[len(spec) - 1] = ["mpf", J(x)] if d.int(0, 5) or spec[-1] not in "z" else ["mpc", [J(x), J(exact.mk(d.int(0, 1), 1, -d.int(1, 40)))]]
+    return {"name": name, "p": p, "args": args, "tier": tier, "cls": "%s:switchscan" % name}
+
+
 def gen_case(d, shard, tier):
+    if shard == "switch":
+        return gen_switch(d, tier)
     name = d.choice(cat.names(shard))
     if shard == "f":
         p = d.int(10, 3300) if d.bool() else d.choice([47, 48, 49, 50, 53, 100, 119, 120, 121, 122, 123, 400, 600, 1000, 1500, 2500, 3000])
@@ -128,7 +185,7 @@ def gen_case(d, shard, tier):
     else:
         p = d.int(10, 80 if tier == "quick" else 300)
     args, k = _edge_args(d, name, p)
-    return {"name": name, "p": p, "args": args, "cls": "%s:%s" % (name, k)}
+    return {"name": name, "p": p, "args": args, "tier": tier, "cls": "%s:%s" % (name, k)}
 
 
 def check_case(c):
@@ -143,11 +200,18 @@ def check_case(c):
     try:
         args = cat.build_args(mp, c["args"])
         f = getattr(mp, name)
+        import time as _time
+        cpu0 = _time.process_time()
         try:
-            with time_limit(300.0):
-                counted(f, *args)
+            with time_limit(600.0):
+                with cpu_limit(CPU_BUDGET[c.get("tier", "quick")]):
+                    counted(f, *args)
         except DOC:
             res.nontrivial = True
+        except CpuBudgetExceeded:
+            res.bad("cpu-budget:%s" % name, "%s did not finish within %d s of CPU time of this process (%d events counted; the loop "
+                    "iterations keep getting more expensive, e.g. ever growing integers)" % (what, CPU_BUDGET[c.get("tier", "quick")], _state["cnt"]))
+            return res
         except BudgetExceeded:
             res.bad("budget:%s" % name, "%s did not finish within %d interpreter events (function entries + loop iterations)" % (what, BUDGET))
             return res
